@@ -402,7 +402,7 @@ pub fn rename_variants(spec: &SysSpec) -> Vec<SysSpec> {
 }
 
 pub fn meta(rep: &mut Report) {
-    rep.rule = "systems = S1 (full pools incl. div/rem) + S3(3) of skeletons K1..K7 (thorough: + S2(4)), hand-built swap/delay/count2/delayin and an array-input system; each with and without names on every intermediate node. simplify_expressions runs on every system; replace_anonymous_inputs_with_zero runs on every renaming variant (0, 1 or 2 of the inputs/states renamed to _input_<n> / _state_<n>). Oracle: input/state lists (minus the anonymous inputs), no init/next dropped or added, root counts and output names, type of every changed function, equality of every changed function with the original under ALL valuations of states and inputs (removed inputs = 0), no removed or undeclared symbol in the result, surviving names label equivalent functions, lock-step reference simulation over all input sequences of length 3 from all initial states. evaluations = transformation calls; distinct_nontrivial = distinct (system, naming, pass) cases in which at least one init/next/output/bad/constraint expression changed".into();
+    rep.rule = "systems = S1 (full pools incl. div/rem) + S3(3) of skeletons K1..K7 (thorough: S1 + S3(4) + S2(32) + S3(5) of K1/K3/K4/K7), hand-built swap/delay/count2/delayin and an array-input system; each with and without names on every intermediate node. simplify_expressions runs on every system; replace_anonymous_inputs_with_zero runs on every renaming variant (0, 1 or 2 of the inputs/states renamed to _input_<n> / _state_<n>). Oracle: input/state lists (minus the anonymous inputs), no init/next dropped or added, root counts and output names, type of every changed function, equality of every changed function with the original under ALL valuations of states and inputs (removed inputs = 0), no removed or undeclared symbol in the result, surviving names label equivalent functions, lock-step reference simulation over all input sequences of length 3 from all initial states. evaluations = transformation calls; distinct_nontrivial = distinct (system, naming, pass) cases in which at least one init/next/output/bad/constraint expression changed".into();
     rep.assumptions = vec![
         "an input is anonymous iff its name starts with `_input` or `_state` (the constants of btor2/parse.rs); the pass looks at sys.inputs only, a state with such a name stays".into(),
         "init expressions read earlier states only (no inputs), so anonymous inputs never occur in init".into(),
